@@ -343,28 +343,74 @@ func ruleC16(r *Report) {
 		chk("IssuedAt", 0)
 		chk("NotBefore", 0)
 
-		// mapping
-		for _, b := range fn.Blocks {
-			for _, in := range b.Instrs {
-				mu, ok := in.(*ssa.MapUpdate)
-				if !ok {
-					continue
-				}
-				cons := fmt.Sprintf("%s: attribute claim %s", p.FnName(fn), fc.AP(mu.Key))
-				var vals []string
-				okM := true
-				for _, lf := range rootLeaves(mu.Value, map[ssa.Value]bool{}) {
-					ap := fc.AP(lf)
-					vals = append(vals, ap)
-					switch {
-					case strings.Contains(ap, "Assertion.AttributeStatements[*].Attributes[*].Values[*].Value"):
-					case strings.Contains(ap, "Assertion.AuthnStatements[*].SessionIndex"):
-					case strings.Contains(ap, ".Attributes["): // the existing slice being extended
-					default:
-						okM = false
+		// mapping: the constructor and the module helpers it calls
+		mapFns := []*ssa.Function{fn}
+		seenMF := map[*ssa.Function]bool{fn: true}
+		for k := 0; k < len(mapFns) && k < 8; k++ {
+			for _, b := range mapFns[k].Blocks {
+				for _, in := range b.Instrs {
+					if c, ok := in.(*ssa.Call); ok && c.Call.StaticCallee() != nil && p.InLibrary(c.Call.StaticCallee()) && !seenMF[c.Call.StaticCallee()] && len(c.Call.StaticCallee().Blocks) > 0 {
+						seenMF[c.Call.StaticCallee()] = true
+						mapFns = append(mapFns, c.Call.StaticCallee())
 					}
 				}
-				r.Check(okM, "C16.mapping", cons, p.InstrPos(in), strings.Join(vals, ", "), "a claim value does not come from the assertion's attribute statements or session index: "+strings.Join(vals, ", "))
+			}
+		}
+		for _, mf := range mapFns {
+			am := a
+			fm := fc
+			if mf != fn {
+				am = NewAnalysis(p)
+				fm = am.Ctx(mf)
+				r.Fn(p.FnName(mf))
+			}
+			for _, b := range mf.Blocks {
+				for _, in := range b.Instrs {
+					mu, ok := in.(*ssa.MapUpdate)
+					if !ok {
+						continue
+					}
+					if mt, ok := mu.Map.Type().Underlying().(*types.Map); !ok || mt.Elem().String() != "[]string" {
+						continue
+					}
+					cons := fmt.Sprintf("%s: attribute claim %s", p.FnName(mf), fm.AP(mu.Key))
+					var vals []string
+					okM := true
+					why := "a claim value does not come from the assertion's attribute statements or session index"
+					for _, lf := range rootLeaves(mu.Value, map[ssa.Value]bool{}) {
+						ap := fm.AP(lf)
+						vals = append(vals, ap)
+						if sl, isSl := lf.(*ssa.Slice); isSl && sl.Max == nil {
+							// a window into another slice: later appends through either alias overwrite the other's elements
+							okM = false
+							why = "the claim's values are a sub-slice of a shared buffer (" + fm.AP(sl.X) + "): appending to one claim can overwrite the values of another"
+							continue
+						}
+						switch {
+						case strings.Contains(ap, "Assertion.AttributeStatements[*].Attributes[*].Values[*].Value"):
+						case strings.Contains(ap, "Assertion.AuthnStatements[*].SessionIndex"):
+						case strings.Contains(ap, ".Attributes["): // the existing slice being extended
+						case isMapLookupOf(lf, mu.Map, mu.Key): // the claim's own slice being extended
+						default:
+							okM = false
+						}
+					}
+					r.Check(okM, "C16.mapping", cons, p.InstrPos(in), strings.Join(vals, ", "), why+": "+strings.Join(vals, ", "))
+					// the claim is named by the attribute's FriendlyName, else its Name (or the constant session-index claim)
+					okK := true
+					var keys []string
+					for _, gl := range gatedLeaves(mu.Key, nil, map[ssa.Value]bool{}) {
+						kap := fm.AP(gl.v)
+						keys = append(keys, kap)
+						if _, isC := gl.v.(*ssa.Const); isC {
+							continue
+						}
+						if !(strings.HasSuffix(kap, "Attributes[*].FriendlyName") || strings.HasSuffix(kap, "Attributes[*].Name")) {
+							okK = false
+						}
+					}
+					r.Check(okK, "C16.mapping", cons+": key", p.InstrPos(in), strings.Join(keys, " | "), "the claim is not named by the attribute's FriendlyName/Name: "+strings.Join(keys, " | "))
+				}
 			}
 		}
 		for _, st := range lf["StandardClaims.Subject"] {
@@ -970,4 +1016,24 @@ func checkStopTracking(r *Report, p *Prog, rule string) {
 	if n == 0 {
 		r.Bad(rule, p.FnName(fn)+": cookie cleared", p.Pos(fn.Pos()), "StopTrackingRequest does not clear any cookie")
 	}
+}
+
+// isMapLookupOf: v is m[key] (or its value component) for the same map and key values.
+func isMapLookupOf(v ssa.Value, m, key ssa.Value) bool {
+	if ex, ok := v.(*ssa.Extract); ok {
+		v = ex.Tuple
+	}
+	lk, ok := v.(*ssa.Lookup)
+	if !ok {
+		return false
+	}
+	same := func(a, b ssa.Value) bool {
+		if a == b {
+			return true
+		}
+		la, ok1 := a.(*ssa.UnOp)
+		lb, ok2 := b.(*ssa.UnOp)
+		return ok1 && ok2 && la.X == lb.X
+	}
+	return same(lk.X, m) && same(lk.Index, key)
 }
